@@ -9,7 +9,11 @@ MCStructDefs ==
    Nest  |-> <<StructT("Inner"), P("f32"), StructT("Wide"), P("i8")>>,
    WOpt  |-> <<OptT("dipl", P("u8")), P("u32"), OptT("dipl", StructT("Inner")), OptT("dipl", EnumT)>>,
    Brw   |-> <<K("opq"), SliceT("u32", "imm"), K("optopq"), StrT("utf8", FALSE)>>,
-   Os    |-> <<K("box"), K("optbox"), P("u8")>>]
+   Os    |-> <<K("box"), K("optbox"), P("u8")>>,
+   \* optional slices / strings as FIELDS (the option record around a two-word view); outside the shared catalogue, see ExtraStructs
+   OSl   |-> <<OptT("dipl", SliceT("u8", "imm")), P("u16"), OptT("dipl", StrT("utf8", FALSE)), OptT("dipl", SliceT("f64", "imm"))>>]
+\* structs only some checks render (emitted separately, so that the signature catalogue and its other users are unchanged)
+ExtraStructs == {"OSl"}
 InStructs == {"Inner", "Wide", "Mix", "Nest", "WOpt", "Brw"}
 OptPayload == {P("u8"), P("i64"), P("f32"), P("bool"), P("char"), P("usize"), EnumT, StructT("Inner"), StructT("Wide"), StructT("Mix")}
 SliceElems == {"u8", "i16", "u32", "f64", "usize", "i64", "bool"}
@@ -156,8 +160,12 @@ TraitIsDataPlusVtable == \A t \in TraitTypes : LET sh == Shape(t) IN
 \* a callback object is three pointers on every target
 CbIsThreePointers == \A c \in CbTypes : Shape(c) = StructS(<<PtrS, PtrS, PtrS>>) /\ CbShape(c).params[1] = PtrS
 EmitDefs == (Mode = "cover" /\ sig = Sg(K("opq"), <<>>, FALSE, UnitT)) =>
-               PrintT(<<"DEFS", ToJson([structs |-> StructDefs, layouts |-> StructLayouts,
-                                        shapes |-> [n \in DOMAIN StructDefs |-> Shape(StructT(n))]])>>)
+               PrintT(<<"DEFS", ToJson([structs |-> [n \in DOMAIN StructDefs \ ExtraStructs |-> StructDefs[n]],
+                                        layouts |-> [n \in DOMAIN StructDefs \ ExtraStructs |-> StructLayouts[n]],
+                                        shapes |-> [n \in DOMAIN StructDefs \ ExtraStructs |-> Shape(StructT(n))],
+                                        xstructs |-> [n \in ExtraStructs |-> StructDefs[n]],
+                                        xlayouts |-> [n \in ExtraStructs |-> StructLayouts[n]],
+                                        xshapes |-> [n \in ExtraStructs |-> Shape(StructT(n))]])>>)
 \* negative model: an Option whose flag comes first
 FlaggedBad(payloads) == IF payloads = <<>> THEN StructS(<<BoolS>>) ELSE StructS(<<BoolS, UnionS(payloads)>>)
 =============================================================================
